@@ -58,6 +58,7 @@ type c09result struct {
 	viol           string
 	key            string
 	outcome        string
+	trace          []string
 }
 
 func tokensOfFile() ([]uint32, bool) {
@@ -68,7 +69,7 @@ func tokensOfFile() ([]uint32, bool) {
 	return t, true
 }
 
-func runC09(t *testing.T, sc c09scenario, f fault) (res c09result) {
+func runC09(t *testing.T, sc c09scenario, f fault, chs ...*sched.Chooser) (res c09result) {
 	synctest.Test(t, func(t *testing.T) {
 		vos.Reset()
 		if sc.fileStart != nil {
@@ -76,7 +77,12 @@ func runC09(t *testing.T, sc c09scenario, f fault) (res c09result) {
 				panic(err)
 			}
 		}
-		e := sched.NewExec(sched.NewChooser(nil)) // the deterministic default schedule; the enumeration is over fault points
+		ch := sched.NewChooser(nil) // quick tier: the deterministic default schedule; the enumeration is over fault points
+		if len(chs) > 0 {
+			ch = chs[0] // thorough tier: every schedule within one departure from it, per fault point
+		}
+		e := sched.NewExec(ch)
+		e.DelayBounded = true
 		e.MaxSteps = 20000
 		e.Quantum = quantum
 		t0 := time.Now()
@@ -206,7 +212,7 @@ func runC09(t *testing.T, sc c09scenario, f fault) (res c09result) {
 			e.Run()
 		}
 		log := e.CanonLog()
-		_ = log
+		res.trace = append(append([]string{}, e.Trace...), log...)
 		e.Disable()
 		synctest.Wait()
 		// ---- oracle ----
@@ -373,11 +379,14 @@ func TestC09Crash(t *testing.T) {
 	rep.Bound = fmt.Sprintf("scenarios %v (full Lifecycler and BasicLifecycler + TokensPersistency, always next to a bystander lifecycler holding tokens): a crash before and after the commit of EVERY store write the lifecycler performs followed by a restart with the same identity on the surviving store and tokens file; every window [a,b) of failing CAS attempts; a wipe of the ring key after every commit; restarts with a larger / smaller configured token count; the dead instance's tokens claimed by the bystander before the restart; after every recovery the ring key is lost once more", names)
 	rep.Rule = "pass 0 runs fault-free and learns the number N of commits; then one real execution per fault point under the virtual clock; oracle: back to ACTIVE with the full token count, tokens recorded before the crash (ring entry, else tokens file) kept, registration time kept if the entry survived and fresh after a wipe, no token shared with the bystander, bystander untouched, every write still passes the C08 monitor, tokens file equals the ring entry, and what the recovered process re-registers from memory after a later loss of the ring equals what it had registered; distinct_nontrivial = distinct (scenario, fault) whose run differs from the fault-free one"
 	deadline := ev.Deadline(8 * time.Minute)
+	si, sn := ev.Shard()
 	for _, sc := range scs {
 		base := runC09(t, sc, fault{kind: "none"})
-		rep.Eval(1)
-		rep.Trans(1)
-		rep.State(1)
+		if si == 0 {
+			rep.Eval(1)
+			rep.Trans(1)
+			rep.State(1)
+		}
 		if base.viol != "" {
 			rep.Violate("C09:"+sc.name+":none:"+base.key, base.viol, nil)
 			continue
@@ -399,12 +408,32 @@ func TestC09Crash(t *testing.T) {
 				}
 			}
 		}
-		for _, f := range faults {
+		for fi, f := range faults {
 			if ev.WallNow().After(deadline) || rep.NumViolations() >= 10 {
 				rep.NotExhaustive("deadline or violation cap")
 				break
 			}
 			if sc.stopAt > 0 && (f.kind == "cas-window" || f.kind == "wipe-after") {
+				continue
+			}
+			if ev.Thorough() {
+				// every schedule within two departures from the default order (store commit order of victim, bystander and
+				// restarted process, timing of the stop request and of the clock), for this fault point
+				if fi%sn != si {
+					continue
+				}
+				x := &sched.Explorer{Bound: 2, Report: rep, Deadline: deadline, Scenario: sc.name + "|" + f.String(), NoShard: true, AuditN: 200,
+					Run: func(c *sched.Chooser) sched.Result {
+						r := runC09(t, sc, f, c)
+						return sched.Result{Violation: r.viol, Key: r.key, Outcome: r.outcome, Trace: r.trace}
+					}}
+				if !x.ExploreOrReplay() {
+					rep.NotExhaustive("deadline or violation cap at " + sc.name + " / " + f.String())
+					break
+				}
+				continue
+			}
+			if si != 0 {
 				continue
 			}
 			r := runC09(t, sc, f)
